@@ -31,7 +31,7 @@ ASSUMPTIONS = [
     "Members of an interleaved candidate may be linked through a shared defining gene as well as through "
     "overlapping cores (hybrid groups are absorbed whole).",
 ]
-REQUIRED = ["op:coverage", "op:location", "op:hybrid", "op:interleaved", "op:neighbouring", "op:single", "op:unique",
+REQUIRED = ["op:coverage", "op:members-once", "op:location", "op:hybrid", "op:interleaved", "op:neighbouring", "op:single", "op:unique",
             "op:order", "kind:single", "kind:neighbouring", "kind:interleaved", "kind:chemical_hybrid",
             "shape:group-across-origin", "shape:identical-coordinates"]
 
@@ -198,6 +198,14 @@ def check_record(ctx, case, record, protos):
     for p in plist:
         if id(p) not in covered:
             ctx.violate("protocluster-in-no-candidate", dict(facts0, product=p.product), case)
+    # (1b) a member is listed once ("exactly its member protoclusters")
+    for c in cands:
+        ctx.count("op:members-once")
+        ids = [id(p) for p in c.protoclusters]
+        if len(set(ids)) != len(ids):
+            ctx.violate("candidate-lists-member-once",
+                        dict(facts0, candidate=str(c.location), kind=str(c.kind), members=[p.product for p in c.protoclusters],
+                             core_crosses_origin=len(c.core_location.parts) > 1), case)
     # (2) location
     for c in cands:
         ctx.count("op:location")
